@@ -31,6 +31,8 @@ inductive Arm
 /-- iterator adaptors of the `InAnyOrder` chain, in source order -/
 inductive Adaptor
   | iter | enumerate | filterMap | next | transpose | mapErr
+  /-- `for (i, p) in ….iter().enumerate() { match … { … => continue, … => return … } } Ok(None)` -/
+  | forReturn
   | rev | last | skip | other
   deriving DecidableEq, Repr
 
@@ -74,10 +76,13 @@ def takeNext : List (Nat × Arm) → Sel
   | (i, .unwind) :: _ => .unwound i
   | _ => .ill
 
-/-- meaning of the whole chain; anything but the exact adaptor sequence the interpreter knows is `ill` -/
+/-- meaning of the whole chain — or of the equivalent `for` loop with `continue` / early `return`: the first element whose
+    arm is not `None` / `continue` decides. Anything but these two adaptor sequences is `ill`. Whether the scan passes a
+    mismatch reporter is recorded (`reporterNone`) but does not enter the meaning: `C06_diagnostics_do_not_decide`. -/
 def AnySkel.run (s : AnySkel) (rs : List R) : Sel :=
-  if s.overCallPatterns ∧ s.reporterNone ∧ s.errMapsOwnIndex ∧
-     s.adaptors = [.iter, .enumerate, .filterMap, .next, .transpose, .mapErr]
+  if s.overCallPatterns ∧ s.errMapsOwnIndex ∧
+     (s.adaptors = [.iter, .enumerate, .filterMap, .next, .transpose, .mapErr] ∨
+      s.adaptors = [.iter, .enumerate, .forReturn])
   then takeNext (filterMapped s rs 0) else .ill
 
 /-! ## ordered branch: a statement list -/
